@@ -1,3 +1,5 @@
+//! Runs the REAL derive-macro generator of /repo (ff-macros/src/montgomery) outside a proc-macro:
+//! `montgen <modulus> <generator>` prints the token stream `#[derive(MontConfig)]` would emit for that modulus.
 extern crate proc_macro;
 #[allow(dead_code)]
 #[path = "/repo/ff-macros/src/utils.rs"]
